@@ -210,6 +210,13 @@ def cache_scenarios(rng, tier, maxp):
               mk([f"append {3 * maxp - 1} aa {psig(2)}", f"append {3 * maxp - 1} aa {psig(0)}"]) + [f"len {3 * maxp - 1} aa", "dump"]})
     S.append({"name": "many-prevs", "signers": 3, "ops": mk([f"append 7 - {psig(2)}", f"append 7 - {psig(1)}"]) +
               mk([f"append 7 {k:04x} {psig(1)}" for k in range(1, 2 * maxp + 5)]) + ["len 7 -", "dump", "flush 7", "sizes", "dump"]})
+    # out-of-order arrival: a signer's partials for round r+1 (distinct previous signatures) are recorded BEFORE its partial
+    # for round r, round r is stored (flush r), the signer goes on with r+1: its quota must still count the r+1 entries
+    for lead in (maxp - 2, maxp // 2, 3):
+        S.append({"name": "out-of-order-flush", "signers": 2, "ops":
+                  mk([f"append 8 {k:04x} {psig(1)}" for k in range(1, lead + 1)]) + mk([f"append 7 aa {psig(1)}", f"append 7 aa {psig(0)}"]) +
+                  ["dump", "flush 7", "sizes", "dump"] + mk([f"append 8 {k:04x} {psig(1)}" for k in range(maxp, 2 * maxp + 3)]) +
+                  ["flush 6", "sizes"] + mk([f"append 9 {k:04x} {psig(1)}" for k in range(1, 5)]) + ["dump"]})
     n = 10 if tier == "quick" else 200
     for i in range(n):
         r = rng.fork(f"cache{i}")
@@ -223,7 +230,11 @@ def cache_scenarios(rng, tier, maxp):
             elif k < 78:
                 ops += [f"append {r.range(1, 9)} aa {('%04x' % idx) + 'ab' * r.choice([0, 1, 95, 97])}", "sizes"]   # malformed length
             elif k < 86:
-                ops += [f"flush {r.range(0, 8)}", "sizes"]
+                fr = r.range(0, 8)
+                if r.chance(1, 3):      # a burst for the rounds above the flushed one first, then the flushed round itself
+                    ops += sum([[f"append {fr + r.range(1, 2)} {'%04x' % r.below(300)} {psig(idx)}", "sizes"] for _ in range(r.range(1, 40))], [])
+                    ops += [f"append {fr} aa {psig(idx)}", "sizes"]
+                ops += [f"flush {fr}", "sizes"]
             elif k < 94:
                 ops += ["dump"]
             else:
@@ -267,6 +278,13 @@ def cache_oracle(ops, outs, maxp, signers):
             prev = None
         elif f[0] == "dump":
             cur = parse_dump(out)
+            held = {}
+            for k, who in cur.items():
+                for j in who:
+                    held[j] = held.get(j, 0) + 1
+            for j, cnt in sorted(held.items()):
+                if cnt > maxp:
+                    return f"op {i}: {cnt} round caches hold a partial of signer {int(j)} (per-member bound {maxp})"
             if prev is not None:
                 for k, who in prev.items():
                     for j in who:
